@@ -6,7 +6,7 @@
    order-insensitive summaries ([out_summary]). *)
 From Coq Require Import ZArith List Bool.
 Import ListNotations.
-From Mds Require Import Mapset.MapsetModel Mapset.MapsetProofsHist.
+From Mds Require Import Mapset.MapsetModel.
 Local Open Scope Z_scope.
 
 Section Canon.
